@@ -81,3 +81,10 @@ Print Assumptions C08_variable_id_lossless.
 Theorem C08_attribute_values_injective : forall a b, conv_value a = conv_value b -> a = b.
 Proof. exact conv_value_injective. Qed.
 Print Assumptions C08_attribute_values_injective.
+
+(* text: valid unicode text is sent unchanged; for ANY text (lone surrogates included) what is sent is valid unicode,
+   so the snapshot is never dropped at conversion because of a string *)
+Theorem C08_text :
+  (forall s, valid_text s = true -> sanitize s = s) /\ (forall s, valid_text (sanitize s) = true).
+Proof. split; [exact sanitize_valid_unchanged|exact sanitize_always_valid]. Qed.
+Print Assumptions C08_text.
